@@ -347,6 +347,7 @@ func runTeardownSuite(rep *Report, tier string, seed int64, prop string) {
 	_ = rng
 	if prop == "C14" {
 		c14EnumDuringTeardown(rep)
+		c14HookCombos(rep)
 	}
 	// a link whose context is ALREADY cancelled when Link is called (or is cancelled while it sets up)
 	for _, api := range apis() {
